@@ -374,6 +374,17 @@ def rule_csv_tables(ctx: Ctx) -> RuleResult:
             "on this path the fields do not come from merge_escape_parts(line.split(separator), ...): %d split(s) [%s], %d call(s) of the merger -- a quoted field "
             "containing the separator is cut where the merger was not consulted" % (
                 len(splits), "; ".join(s.brief()[:50] for s in splits), len(merges)), trace_of(p)))
+        # every field of a row that is read goes through the parser of its column, unless it is one of the caller's none_values (a field
+        # that gets its value from anywhere else -- a schema default, a constant -- does not come back as it was written: '' is written '""')
+        if p.outcome == "return" and any(e.k == "loopiter" for e in p.trace):
+            COLS = ("arg", m.scopes[fn].params[1])
+            parsed = any(e.k == "call" and e.func[0] == "sub" and e.func[1] == COLS and e.args for e in p.trace)
+            none_t = any(e.k == "decision" and e.outcome and e.test[0] == "cmp" and e.test[1] == "In" and e.test[3][0] == "param" and e.test[3][1] == "none_values"
+                         for e in p.trace)
+            r.ob(parsed or none_t, lambda p=p: Finding(
+                "CS-1", "%s::parse_line{field-parser}" % CSV, m.where(fn),
+                "on this path a field is neither one of none_values nor handed to its column parser: its value does not come from the text that was "
+                "written", trace_of(p)))
         # the unquoting branch: value handed to the column parser is a replace chain over i[1:-1]
         for e in p.trace:
             if e.k == "call" and e.func[0] == "sub" and e.func[1] == ("arg", m.scopes[fn].params[1]) and e.args:
@@ -1627,6 +1638,10 @@ def rule_pu2(ctx: Ctx) -> RuleResult:
             a0 = e.args[0] if e.args and e.args[0][0] != "kw" else next((a[2] for a in e.args if a[0] == "kw" and a[1] == "source"), None)
             # (directly, or through whatever opens / wraps it: open_obj(filename, ...), contextlib.nullcontext(filename))
             src_ok = a0 is not None and any(isinstance(x, tuple) and len(x) > 1 and x[0] == "param" and x[1] == "filename" for x in subterms(a0))
+            # ... and nothing else stands between that object and the reader: bytes taken with the object's read() start at the position the
+            # caller left it at (a file object just written is at its end), a reader built on its descriptor bypasses the object
+            if src_ok and ((a0[0] == "call" and a0[1][0] == "glob" and not a0[1][1].startswith("contextlib.")) or a0[0] == "mcall"):
+                src_ok = False
             r.ob(src_ok, lambda e=e, a0=a0, p=p: Finding(
                 "PU-2", "%s::load_from_file.%s{source}" % (PQ, callers[0].name), e.where(),
                 "the parquet reader is opened on %s: it must be the file object the caller gave, or the file opened from the caller's path" % (
